@@ -15,12 +15,13 @@ MANIFEST = {
 
 
 def run(ctx):
-    core.build_harness(["commit_sched"])
+    core.build_harness(["commit_sched", "close_race"])
     _commit.model_check(ctx, faults=1)
     if not ctx.quick:
         _commit.model_check(ctx, faults=2, txns='{"t1", "t2", "t3", "t4"}', wr="MCWr2")
     _commit.liveness(ctx)
     _commit.directed(ctx)
+    _commit.close_race(ctx)
     _commit.replay_schedules(ctx, "edge", faults=1)
     if not ctx.quick:
         _commit.replay_schedules(ctx, "edge4", faults=2, txns='{"t1", "t2", "t3", "t4"}', wr="MCWr2",
